@@ -30,6 +30,14 @@ Theorem C10_decode_no_panic : forall unmarshal r ntypes,
   decode unmarshal r ntypes <> Panic.
 Proof. exact decode_no_panic. Qed.
 
+(** Whatever the JSON library answers and whatever the placeholders say, every byte slice that
+    decode places into a decoded value is one of the packet's attachment frames - never the JSON
+    payload (buffers[0], which placeholder -1 used to hand out) and never foreign data. *)
+Theorem C10_placed_is_attachment : forall unmarshal r ntypes vs,
+  decode unmarshal r ntypes = Ok vs ->
+  forall b, In b (concat (map bins_of vs)) -> In b (tl (r_buffers r)).
+Proof. exact decode_bins. Qed.
+
 (** Each call of Add ends in exactly one of three ways - error, need-more, finished packet - and
     leaves a well-formed state: a finished packet leaves the parser idle with remaining = 0 (a
     packet completed by its header alone carries exactly 1 + Attachments buffers); need-more
